@@ -118,6 +118,21 @@ def run(ctx):
                 ctx.violation('tlv_var.shrink_length', 'shrink-not-reencoding', 'shrunk wire is not T, L-val, V[:-val]', (w2, val))
         ctx.case(('pct', w, exp, val), True, None, 'tlv_var.check')
 
+    # shrink_length across the 5->3 byte Length boundary (65536) and the 3->1 boundary (253), all offsets near them
+    for size in ([253, 254, 255, 260, 65536, 65537, 65540] if not ctx.thorough else list(range(253, 262)) + list(range(65536, 65546))):
+        body = G.rand_bytes(rng, size)
+        for t in (6, 5, 253):
+            w2 = G.tlv(t, body)
+            for val in (1, 2, 3, 8, size - 252, size - 65535 if size > 65535 else 1):
+                if val <= 0 or val > size:
+                    continue
+                r = impl(lambda: bytes(TV.shrink_length(bytearray(w2), val)))
+                cmp_res(ctx, 'shrink_length', ('tlv', t, size, val), M([25, w2, val]), r)
+                if r[0] == 'ok' and r[1] != G.tlv(t, body[:size - val]):
+                    ctx.violation('tlv_var.shrink_length', 'shrink-not-reencoding',
+                                  'shrunk wire is not T, L-val, V[:-val]', {'type': t, 'size': size, 'val': val})
+                ctx.case(('shrinkb', t, size, val), True, None, 'tlv_var.shrink.boundary')
+
     # ---- 2. components ---------------------------------------------------------------------
     for i in range(ctx.n(2500, 60000)):
         s = G.rand_uri_comp(rng)
